@@ -1,127 +1,8 @@
 (* modelrun: runs the extracted Coq models on case files written by the Rust harness and prints
-   observations in exactly the harness's format.  No model logic lives here: only parsing,
-   number conversion and printing. *)
-open Model
-
-let rec pos_of_int i = if i = 1 then XH else if i land 1 = 0 then XO (pos_of_int (i lsr 1)) else XI (pos_of_int (i lsr 1))
-let n_of_int i = if i = 0 then N0 else Npos (pos_of_int i)
-let rec int_of_pos = function XH -> 1 | XO p -> 2 * int_of_pos p | XI p -> 2 * int_of_pos p + 1
-let int_of_n = function N0 -> 0 | Npos p -> int_of_pos p
-let rec nat_of_int i = if i = 0 then O else S (nat_of_int (i - 1))
-let rec int_of_nat = function O -> 0 | S n -> 1 + int_of_nat n
-
-(* token cursor *)
-type toks = { v : string array; mutable i : int }
-let toks_of_line l = { v = Array.of_list (List.filter (fun s -> s <> "") (String.split_on_char ' ' l)); i = 0 }
-let word t = let s = t.v.(t.i) in t.i <- t.i + 1; s
-let num t = int_of_string (word t)
-let nn t = n_of_int (num t)
-
-(* ------------------------------------------------------------------ dom-ops *)
-let rec parse_bt t =
-  let label = nn t in let name = nn t in let cls = nn t in
-  let np = num t in
-  let props = List.init np (fun _ ->
-    let k = nn t in let kind = word t in let v = nn t in
-    (k, (match kind with "R" -> PRef v | "U" -> PUid v | _ -> POther v))) in
-  let nk = num t in
-  let kids = List.init nk (fun _ -> parse_bt t) in
-  BNode (label, name, cls, props, kids)
-
-let parse_op line =
-  let t = toks_of_line line in
-  match word t with
-  | "new" -> ONew (parse_bt t)
-  | "insert" -> let d = num t in let p = nn t in OInsert (nat_of_int d, p, parse_bt t)
-  | "destroy" -> let d = num t in let r = nn t in ODestroy (nat_of_int d, r)
-  | "movew" -> let d = num t in let r = nn t in let p = nn t in OMoveWithin (nat_of_int d, r, p)
-  | "move" -> let d = num t in let r = nn t in let d2 = num t in let p = nn t in OMove (nat_of_int d, r, nat_of_int d2, p)
-  | "clonew" -> let d = num t in let r = nn t in OCloneWithin (nat_of_int d, r)
-  | "clonex" -> let d = num t in let r = nn t in let d2 = num t in OCloneExt (nat_of_int d, r, nat_of_int d2)
-  | "clonem" -> let d = num t in let d2 = num t in let n = num t in
-      let rs = List.init n (fun _ -> nn t) in OCloneMulti (nat_of_int d, rs, nat_of_int d2)
-  | w -> failwith ("unknown op " ^ w)
-
-let pval_string = function
-  | PRef r -> "R" ^ string_of_int (int_of_n r)
-  | PUid u -> "U" ^ string_of_int (int_of_n u)
-  | POther v -> "O" ^ string_of_int (int_of_n v)
-
-let inst_string (l, i) =
-  let props = List.sort (fun (a, _) (b, _) -> compare a b) (List.map (fun (k, v) -> (int_of_n k, v)) i.i_props) in
-  Printf.sprintf "%d^%d[%s]n%dc%d{%s}" l (int_of_n i.i_parent)
-    (String.concat "," (List.map (fun c -> string_of_int (int_of_n c)) i.i_children))
-    (int_of_n i.i_name) (int_of_n i.i_class)
-    (String.concat "," (List.map (fun (k, v) -> Printf.sprintf "%d=%s" k (pval_string v)) props))
-
-let dom_string root desc insts =
-  let insts = List.sort (fun (a, _) (b, _) -> compare a b) (List.map (fun (k, i) -> (int_of_n k, i)) insts) in
-  Printf.sprintf " | root=%d desc=%s insts=%s" (int_of_n root)
-    (String.concat "," (List.map (fun r -> string_of_int (int_of_n r)) desc))
-    (String.concat ";" (List.map inst_string insts))
-
-let ret_string ret =
-  if ret = [] then "-" else String.concat "," (List.map (fun r -> string_of_int (int_of_n r)) ret)
-
-let observe_concrete w ret =
-  let b = Buffer.create 256 in
-  Buffer.add_string b ("S " ^ ret_string ret);
-  List.iter (fun d ->
-    let desc = match dom_descendants_of d d.d_root with Ok l -> l | _ -> [] in
-    Buffer.add_string b (dom_string d.d_root desc d.d_insts)) w.w_doms;
-  Buffer.contents b
-
-let observe_abstract w ret =
-  let b = Buffer.create 256 in
-  Buffer.add_string b ("S " ^ ret_string ret);
-  List.iter (fun a ->
-    let desc = match ffind a.a_root a.a_trees with
-      | Some t -> List.map troot (bfs_all [t]) | None -> [] in
-    Buffer.add_string b (dom_string a.a_root desc (aflat a))) w.aw_doms;
-  Buffer.contents b
-
-(* read "case id / lines / end" blocks *)
-let read_cases path =
-  let ic = open_in path in
-  let cases = ref [] and cur = ref None in
-  (try while true do
-    let line = input_line ic in
-    if String.length line > 5 && String.sub line 0 5 = "case " then
-      cur := Some (String.sub line 5 (String.length line - 5), [])
-    else if line = "end" then
-      (match !cur with Some (id, ls) -> cases := (id, List.rev ls) :: !cases; cur := None | None -> ())
-    else match !cur with
-      | Some (id, ls) when String.trim line <> "" -> cur := Some (id, line :: ls)
-      | _ -> ()
-  done with End_of_file -> close_in ic);
-  List.rev !cases
-
-let run_domops path outc outa =
-  let oc = open_out outc and oa = open_out outa in
-  List.iter (fun (id, lines) ->
-    Printf.fprintf oc "case %s\n" id; Printf.fprintf oa "case %s\n" id;
-    (* concrete model *)
-    let rec goc w = function
-      | [] -> ()
-      | l :: rest ->
-        (match step w (parse_op l) with
-         | Ok (w1, ret) -> output_string oc (observe_concrete w1 ret ^ "\n"); goc w1 rest
-         | Panic -> output_string oc "P\n"
-         | Err _ -> output_string oc "E\n"
-         | OutOfFuel -> output_string oc "FUEL\n") in
-    goc world0 lines;
-    (* abstract specification *)
-    let rec goa w = function
-      | [] -> ()
-      | l :: rest ->
-        (match astep w (parse_op l) with
-         | Some (w1, ret) -> output_string oa (observe_abstract w1 ret ^ "\n"); goa w1 rest
-         | None -> output_string oa "UNDEF\n") in
-    goa aworld0 lines;
-    output_string oc "end\n"; output_string oa "end\n") (read_cases path);
-  close_out oc; close_out oa
-
+   observations in exactly the harness's format.  No model logic lives here or in run_*.ml: only
+   parsing, number conversion and printing.  One module per case kind. *)
 let () =
-  match Array.to_list Sys.argv with
-  | _ :: "domops" :: path :: outc :: outa :: _ -> run_domops path outc outa
-  | _ -> prerr_endline "usage: modelrun domops <cases> <out-concrete> <out-abstract>"; exit 2
+  let args = List.tl (Array.to_list Sys.argv) in
+  if not (List.exists (fun f -> f args) [ Run_domops.cli; Run_sched.cli ]) then begin
+    prerr_endline "usage: modelrun <kind> ..."; exit 2
+  end
